@@ -419,6 +419,102 @@ theorem dictSetValue_nonstrict (S : Schema V) (final : List (Str × V)) (hpol : 
   intro f _
   cases lookup final f <;> rfl
 
+/-! ### what set_by_object stores -/
+
+theorem growAttrs_nodup (attrs : List Str) (ren : List (Str × Str)) (h : attrs.Nodup) : (growAttrs attrs ren).Nodup := by
+  induction ren generalizing attrs with
+  | nil => simpa [growAttrs]
+  | cons p rest ih =>
+    obtain ⟨k, v⟩ := p
+    simp only [growAttrs]
+    split
+    · apply ih
+      split
+      · exact h
+      · rename_i hk
+        rw [List.nodup_append]
+        refine ⟨h, by simp, ?_⟩
+        intro a ha b hb
+        simp at hb
+        subst hb
+        intro hab
+        subst hab
+        exact hk (by simpa using ha)
+    · exact ih attrs h
+
+theorem candidates_sorted (fields : List Str) (a : Args) (hf : fields.Nodup) :
+    (candidates fields a).Pairwise (fun x y => strLt x y = true) := by
+  unfold candidates sortStrs
+  have hn : ((growAttrs fields a.ren).filter fun x => !a.om.contains x).Nodup :=
+    (growAttrs_nodup fields a.ren hf).filter _
+  have hs := sorted_sortByKey (((growAttrs fields a.ren).filter fun x => !a.om.contains x).map fun s => (s, ()))
+    (by simpa [keys, List.map_map, Function.comp_def] using hn)
+  unfold SortedKeys at hs
+  exact List.Pairwise.map _ (fun _ _ h => h) hs
+
+theorem readable_sorted (o : Obj V) (cand : List Str) (h : cand.Pairwise (fun x y => strLt x y = true)) :
+    SortedKeys (readable o cand) := by
+  unfold SortedKeys readable
+  apply List.Pairwise.filterMap _ _ h
+  intro x y hxy b hb b' hb'
+  simp only [Option.map_eq_some_iff] at hb hb'
+  obtain ⟨_, _, rfl⟩ := hb
+  obtain ⟨_, _, rfl⟩ := hb'
+  exact hxy
+
+theorem mem_readable (o : Obj V) (cand : List Str) (x : Str) (v : V) :
+    (x, v) ∈ readable o cand ↔ x ∈ cand ∧ o.get x = some v := by
+  unfold readable
+  simp only [List.mem_filterMap, Option.map_eq_some_iff, Prod.mk.injEq]
+  constructor
+  · rintro ⟨x', hx', v', hg, rfl, rfl⟩; exact ⟨hx', hg⟩
+  · rintro ⟨hx, hg⟩; exact ⟨x, hx, v, hg, rfl, rfl⟩
+
+theorem dictGet_filter_key {β : Type} (l : List (Str × β)) (p : Str → Bool) (k : Str) (hk : p k = true) :
+    dictGet (l.filter fun q => p q.1) k = dictGet l k := by
+  induction l with
+  | nil => rfl
+  | cons q rest ih =>
+    obtain ⟨qk, qv⟩ := q
+    by_cases hq : p qk = true
+    · simp only [List.filter_cons, hq, if_true, dictGet, ih]
+    · simp only [List.filter_cons, hq, Bool.false_eq_true, if_false, dictGet, ih]
+      have : qk ≠ k := fun h => hq (h ▸ hk)
+      cases dictGet rest k <;> simp [this]
+
+/-- `(x, v)` is the attribute that provides the value for field `f`: a candidate, readable, sent to
+    `f` by the reference destination function, and greater than every other such attribute -/
+def IsAttrWinner (S : Schema V) (o : Obj V) (a : Args) (f x : Str) (v : V) : Prop :=
+  x ∈ candidates S.fields a ∧ o.get x = some v ∧ outKey { a with key := none } x = some f ∧
+  ∀ x' v', x' ∈ candidates S.fields a → o.get x' = some v' → outKey { a with key := none } x' = some f →
+    x' = x ∨ strLt x' x = true
+
+/-- **set_by_object_values** — after `set_by_object` every declared field holds `member.set(v)` for
+    the value `v` of the attribute that maps to it (the greatest attribute name when several do),
+    and is blank when no readable candidate attribute maps to it. -/
+theorem set_by_object_values (S : Schema V) (e : Elem V) (o : Obj V) (a : Args) (hx : Exclusive a)
+    (hf : S.fields.Nodup) (hpol : S.policy ≠ .strict) :
+    (setByObject S e o a).exc = none ∧
+    ∃ val : Str → Option V,
+      (setByObject S e o a).elem = S.fields.map (fun f => (f, match val f with
+                                                              | some v => S.setF f v
+                                                              | none => S.blank)) ∧
+      ∀ f ∈ S.fields, ∀ v, val f = some v ↔ ∃ x, IsAttrWinner S o a f x v := by
+  rw [setByObject_ok S e o a hx, dictSetValue_nonstrict S _ hpol]
+  refine ⟨rfl, fun f => lookup (finalOf S o a) f, rfl, ?_⟩
+  intro f hfm v
+  show lookup (finalOf S o a) f = some v ↔ _
+  unfold finalOf
+  rw [lookup_dictOf, dictGet_filter_key _ (fun k => S.fields.contains k) f (by simpa using hfm),
+    dictGet_fm_sorted _ _ (readable_sorted o _ (candidates_sorted S.fields a hf))]
+  unfold IsAttrWinner
+  simp only [mem_readable]
+  constructor
+  · rintro ⟨x, ⟨hc, hg⟩, hk, hmax⟩
+    exact ⟨x, hc, hg, hk, fun x' v' hc' hg' hk' => hmax x' v' ⟨hc', hg'⟩ hk'⟩
+  · rintro ⟨x, hc, hg, hk, hmax⟩
+    exact ⟨x, ⟨hc, hg⟩, hk, fun x' v' h' hk' => hmax x' v' h'.1 h'.2 hk'⟩
+
 /-- **object_roundtrip** — write an element to an object with `update_object(include/omit,
     rename)` and read the object back into a blank element with the inverse renaming: every
     selected field (renamed, or selected by include/omit) gets `member.set(old value)`, every
